@@ -15,6 +15,7 @@
 import Babylon.BQ.Props
 import Babylon.BQ.Skel
 import Babylon.BQ.Examples
+import Babylon.BQ.TryFailEx
 
 namespace Babylon.Properties.C01
 open Babylon.BQ Babylon.Core Babylon.Gen.BQ
@@ -171,6 +172,39 @@ theorem bq_ver16_faithful_holder (c : Cfg) (y : Sys) (h : ReachF c y) (t : Nat) 
 /-- the low half of the futex word the code loads is the truncation of the model's untruncated version -/
 theorem bq_word_low16 (s : State) (j : Nat) : v16 (s.word j) = v16 (s.ver j) := v16_word s j
 
+/-! ### try-failure justification
+Ghost record (Babylon/BQ/TryFail.lean, TryFailN.lean): a product `Sys × ghost` whose steps are exactly the `StepF` steps plus a
+deterministic ghost update, so every execution lifts uniquely (`bq_try_ghost_total`) and the quantification is unchanged.
+`wit t`   : at some state since `t`'s current call began the queue was empty (pop side) / full (push side) — `EF`: the slot of
+            the next ticket of that side is not at that ticket's version;
+`nr t r`  : at some state since the call began, ticket `start + r` of the call's side (`start` = dispenser value when the call
+            began) was not ready;
+`ovl t`   : at some step since the call began the dispenser of the call's side moved while `t` itself did not step — another
+            operation on that side overlapped the call. -/
+
+/-- every reachable state carries its ghosts: the ghost products do not restrict the executions -/
+theorem bq_try_ghost_total (c : Cfg) (y : Sys) (h : ReachF c y) :
+    (∃ w, GReach c ⟨y, w⟩) ∧ (∃ n o, G2Reach c ⟨y, n, o⟩) := ⟨greach_of_reach h, g2reach_of_reach h⟩
+
+/-- the ghost `wit` is set only by a state of the current call in which the queue is empty / full, or carried over inside the
+same call -/
+theorem bq_try_ghost_meaning (c : Cfg) (a b : GSys) (h : GStep c a b) (t : Nat) (hw : b.wit t) :
+    (a.y.cur t ≠ none ∧ b.y.cur t ≠ none ∧ a.wit t) ∨ EFo c b.y.s (trySide (b.y.cur t)) := wit_step h t hw
+
+/-- **bq_try_fail_justified (try_push / try_pop).**  When a single-element try_ call has failed (it is about to return `false`),
+at some state of its own call interval the queue was full (try_push) / empty (try_pop).  No overlap disjunct is needed: try_deal
+re-reads the dispenser before giving up, and dispensers are monotone. -/
+theorem bq_try_fail_justified (c : Cfg) (g : GSys) (h : GReach c g) (t : Nat) (sd : Side) (conc wake : Bool)
+    (hc : tryCall (g.y.cur t) = some (sd, conc, wake)) (hp : g.y.s.pc t = .retd 0) : g.wit t :=
+  try_fail_justified h t sd conc wake hc hp
+
+/-- **bq_try_fail_justified (try_push_n / try_pop_n).**  When a batch try_ call is about to return `res ≠ num` elements, another
+operation on the same dispenser overlapped the call, or at some state of the call interval the first ticket the call did not get
+(`start + res`) was not ready — the queue held no further element / free slot for it (for `res = 0`: it was empty / full). -/
+theorem bq_try_fail_justified_n (c : Cfg) (g : G2Sys) (h : G2Reach c g) (t : Nat) (sd : Side) (num res : Nat)
+    (hc : tryNCall (g.y.cur t) = some (sd, num)) (hp : g.y.s.pc t = .retd res) (hne : res ≠ num) :
+    g.ovl t ∨ g.nr t res := tryN_short_justified h t sd num res hc hp hne
+
 /-! ### non-vacuity: the hypotheses are satisfiable by concrete non-trivial states (capacity 2) -/
 /-- a reachable state in which thread 1 holds push ticket 0 (hypotheses of `bq_ticket_ge_start`, `bq_fifo`) -/
 example : ∃ y t, ReachF exCfg y ∧ (y.s.pc t).held .push 0 := ⟨ex2, 1, ex2_reach, rfl, rfl⟩
@@ -179,5 +213,10 @@ example : ∃ y t, ReachF exCfg y ∧ (y.s.pc t).inCb exCfg 0 := ⟨ex4, 1, ex4_
 /-- the initial state is quiescent and balanced (hypotheses of `bq_conserve`) -/
 example : ReachF exCfg Sys.init ∧ Quiescent Sys.init ∧ Sys.init.s.pushIdx = Sys.init.s.popIdx :=
   ⟨Reachable.base rfl, fun _ => rfl, rfl⟩
+
+/-- a reachable state in which thread 1's try_pop on the empty queue has failed (hypotheses of `bq_try_fail_justified`) -/
+example : ∃ g, GReach exCfg g ∧ tryCall (g.y.cur 1) = some (.pop, true, true) ∧ g.y.s.pc 1 = .retd 0 := by
+  obtain ⟨w, hw⟩ := greach_of_reach tf4_reach
+  exact ⟨⟨tf4, w⟩, hw, rfl, rfl⟩
 
 end Babylon.Properties.C01
